@@ -242,6 +242,11 @@ theorem connect_first (cfg : HandlerCfg) (major : Nat) (n : Bytes) (hn : n ∈ c
   simp only [dispatch, hv, if_false, hsel, ne_eq, not_true_eq_false]
   simp [codecNameFor, trimPrefix_append]
 
+/-- **first_match_loop** (fact regenerated from the source on every run): the loop over
+    `h.protocolHandlers` in `ServeHTTP` leaves with `break` at the first handler that serves the
+    Content-Type - the shape `selectProtocol` has. -/
+theorem first_match_loop : Gen.serveHTTPFirstMatch = 1 := by decide
+
 /-- **selectProtocol_first**: the selection is the *first* protocol handler that serves the type. -/
 theorem selectProtocol_first (pre post : List (Proto × List Bytes)) (p : Proto) (types : List Bytes) (ct : Bytes)
     (hpre : ∀ q ∈ pre, ct ∉ q.2) (hct : ct ∈ types) :
